@@ -344,9 +344,14 @@ Inductive flow_spec :=
 Definition add_flow (m : model) (fs : flow_spec) : result model :=
   let 'FlowSpec k name param src dst src_f dst_f expected split := fs in
   match k with
-  | KCrude | KRepl =>
+  | KCrude =>
       check guard (negb (has_birth_flow m)) "There is already a birth flow in this model";
-      add_entry_flow m k name (match k with KRepl => EConst 1 | _ => param end) dst dst_f expected []
+      add_entry_flow m k name param dst dst_f expected []
+  | KRepl =>
+      check guard (negb (has_birth_flow m)) "There is already a birth flow in this model";
+      (* the births replace the deaths once: shared equally when the destination matches several compartments *)
+      let ndest := List.length (filter (fun c => is_match c dst dst_f) (m_comps m)) in
+      add_entry_flow m k name (EConst 1) dst dst_f expected (if 1 <? ndest then [AMul (inv_count ndest)] else [])
   | KImport =>
       let ndest := List.length (filter (fun c => is_match c dst dst_f) (m_comps m)) in
       if split then
